@@ -442,4 +442,469 @@ theorem readAll_run (u : MemUnit) (dev : Bool) (a bank : Nat) (hasLatch useLatch
   simp
 
 
+
+
+/-- memory after writing the pairs (location, byte) in order -/
+def writeAll : List (Nat × Nat) → (Nat → Nat) → (Nat → Nat)
+  | [], m => m
+  | p :: ps, m => writeAll ps (fun x => if x = p.1 then p.2 else m x)
+
+/-- DTR0 after the loop -/
+def finalDtr0 : List (Nat × Nat) → Nat → Nat
+  | [], d => d
+  | p :: ps, _ => finalDtr0 ps (min (p.1 + 1) 255)
+
+def finalD : List (Nat × Nat) → Option Nat → Option Nat
+  | [], d => d
+  | p :: ps, _ => finalD ps (some (min (p.1 + 1) 255))
+
+theorem canWrite_rw (b : Bank) (m : Nat → Nat) (unl a : Nat) :
+    ({ b with rw := m } : Bank).canWrite unl a = b.canWrite unl a := rfl
+
+/-- the write loop against a conforming, write-enabled unit: if every target
+cell can be written the loop completes, the memory holds the bytes, DTR0 is
+where the code thinks it is; otherwise `MemoryLocationNotWriteable` -/
+theorem writeLoop_run (dev : Bool) :
+    ∀ (pairs : List (Nat × Nat)) (u : MemUnit) (d : Option Nat),
+      u.dev = dev → u.advance = true → u.we = true → u.dtr1 = u.bank.number →
+      (∀ p ∈ pairs, p.1 ≤ 255) → (∀ p ∈ pairs, u.bank.isLockCell p.1 = false) →
+      (∀ x, d = some x → u.dtr0 = x) →
+      ((∀ p ∈ pairs, u.bank.canWrite u.unlockValue p.1 = true) →
+        ∃ c, (writeLoop dev false pairs d).run MemUnit.step u =
+          (.ok (finalD pairs d),
+            { u with clock := c, dtr0 := finalDtr0 pairs u.dtr0,
+                     bank := { u.bank with rw := writeAll pairs u.bank.rw } })) ∧
+      (¬ (∀ p ∈ pairs, u.bank.canWrite u.unlockValue p.1 = true) →
+        ((writeLoop dev false pairs d).run MemUnit.step u).1 = .error .MemoryLocationNotWriteable) := by
+  intro pairs
+  induction pairs with
+  | nil =>
+    intro u d _ _ _ _ _ _ _
+    refine ⟨fun _ => ⟨u.clock, by simp [writeLoop, finalD, finalDtr0, writeAll]⟩, fun h => ?_⟩
+    exact absurd (fun p hp => by cases hp) h
+  | cons p ps ih =>
+    intro u d hdev hadv hwe hb hlocs hnl hd
+    obtain ⟨l, v⟩ := p
+    have hl255 : l ≤ 255 := hlocs (l, v) (by simp)
+    have hnl0 : u.bank.isLockCell l = false := hnl (l, v) (by simp)
+    -- the state right before the write command: DTR0 = l
+    have body : ∀ (w : MemUnit), w.dev = dev → w.advance = true → w.we = true → w.dtr1 = w.bank.number →
+        w.bank = u.bank → w.unlockValue = u.unlockValue → w.dtr0 = l →
+        ((∀ p ∈ (l, v) :: ps, u.bank.canWrite u.unlockValue p.1 = true) →
+          ∃ c, (Prog.send (.writeMemoryLocation dev v) fun r =>
+              match r with
+              | .none => Prog.fail .MemoryLocationNotWriteable
+              | .err => Prog.fail .ResponseError
+              | .byte b => if b ≠ v then Prog.fail .ResponseError
+                           else writeLoop dev false ps (some (min (l + 1) 255))).run MemUnit.step w =
+            (.ok (finalD ((l, v) :: ps) d),
+              { w with clock := c, dtr0 := finalDtr0 ((l, v) :: ps) w.dtr0,
+                       bank := { u.bank with rw := writeAll ((l, v) :: ps) u.bank.rw } })) ∧
+        (¬ (∀ p ∈ (l, v) :: ps, u.bank.canWrite u.unlockValue p.1 = true) →
+          ((Prog.send (.writeMemoryLocation dev v) fun r =>
+              match r with
+              | .none => Prog.fail .MemoryLocationNotWriteable
+              | .err => Prog.fail .ResponseError
+              | .byte b => if b ≠ v then Prog.fail .ResponseError
+                           else writeLoop dev false ps (some (min (l + 1) 255))).run MemUnit.step w).1
+            = .error .MemoryLocationNotWriteable) := by
+      intro w hwdev hwadv hwwe hwb hwbank hwunl hw0
+      rw [← hwunl]
+      by_cases hc : u.bank.canWrite w.unlockValue l = true
+      · -- the cell is written, the echo is right
+        have hstep : w.step (.writeMemoryLocation dev v) =
+            (.byte v, { w with bank := { u.bank with rw := fun x => if x = l then v else u.bank.rw x },
+                               dtr0 := min (l + 1) 255, clock := w.clock + 1 }) := by
+          have hinc : w.incDtr0 = min (l + 1) 255 := by
+            rw [MemUnit.incDtr0_eq w hwadv (by omega), hw0]
+          simp [MemUnit.step, MemUnit.exec, MemUnit.writeCell, hwdev, hwwe, hwb, hwbank, hw0, hc,
+            Bank.store, hnl0, hinc]
+        simp only [run_send, hstep, ne_eq, not_true_eq_false, if_false]
+        have := ih { w with bank := { u.bank with rw := fun x => if x = l then v else u.bank.rw x },
+                            dtr0 := min (l + 1) 255, clock := w.clock + 1 }
+          (some (min (l + 1) 255)) hwdev hwadv hwwe (by simpa [hwbank] using hwb)
+          (fun p hp => hlocs p (by simp [hp])) (fun p hp => hnl p (by simp [hp]))
+          (by intro x hx; cases hx; rfl)
+        simp only [canWrite_rw] at this
+        obtain ⟨ihA, ihB⟩ := this
+        constructor
+        · intro hall'
+          have hall : ∀ p ∈ ps, u.bank.canWrite w.unlockValue p.1 = true :=
+            fun p hp => hall' p (by simp [hp])
+          obtain ⟨c, hrun⟩ := ihA hall
+          exact ⟨c, by rw [hrun]; simp [finalD, finalDtr0, writeAll]⟩
+        · intro hall'
+          have hall : ¬ ∀ p ∈ ps, u.bank.canWrite w.unlockValue p.1 = true := by
+            intro h; apply hall'
+            intro p hp; simp at hp; rcases hp with rfl | hp
+            · exact hc
+            · exact h p hp
+          exact ihB hall
+      · constructor
+        · intro h; exact absurd (h (l, v) (by simp)) hc
+        · intro _
+          simp [MemUnit.step, MemUnit.exec, MemUnit.writeCell, hwdev, hwwe, hwb, hwbank, hw0, hc]
+    unfold writeLoop
+    simp only [Bool.false_eq_true, if_false]
+    by_cases hdl : d = some l
+    · simp only [hdl, if_true]
+      have := body u hdev hadv hwe hb rfl rfl (hd l hdl)
+      rw [hdl] at this
+      exact this
+    · simp only [hdl, if_false, run_send, MemUnit.step_dtr0 u dev l hdev]
+      exact body { u with dtr0 := l, clock := u.clock + 1 } hdev hadv hwe hb rfl rfl rfl
+
+
+
+
+theorem finalD_some (pairs : List (Nat × Nat)) (x : Nat) : finalD pairs (some x) = some (finalDtr0 pairs x) := by
+  induction pairs generalizing x with
+  | nil => rfl
+  | cons p ps ih => simp [finalD, finalDtr0, ih]
+
+theorem finalD_cons (p : Nat × Nat) (ps : List (Nat × Nat)) (d : Option Nat) (x : Nat) :
+    finalD (p :: ps) d = some (finalDtr0 (p :: ps) x) := by
+  simp [finalD, finalDtr0, finalD_some]
+
+/-- `write_raw` without unlocking, feedback checked, conforming unit, every target cell writable -/
+theorem writeRaw_ok (u : MemUnit) (dev : Bool) (a bank : Nat) (locs : List (Nat × MemType)) (raw : List Nat)
+    (allowShort : Bool) (hl : u.Listens dev a) (hadv : u.advance = true) (hb : u.bank.number = bank)
+    (hchk : writeChecks locs raw.length allowShort false = .ok false)
+    (hne : (locs.map (·.1)).zip raw ≠ [])
+    (hlocs : ∀ p ∈ (locs.map (·.1)).zip raw, p.1 ≤ 255)
+    (hnl : ∀ p ∈ (locs.map (·.1)).zip raw, u.bank.isLockCell p.1 = false)
+    (hcw : ∀ p ∈ (locs.map (·.1)).zip raw, u.bank.canWrite u.unlockValue p.1 = true) :
+    ∃ c, (writeRaw (if dev then .devShort a else .gearShort a) bank locs raw allowShort false false).run
+        MemUnit.step u =
+      (.ok (), { u with clock := c, dtr0 := finalDtr0 ((locs.map (·.1)).zip raw) u.dtr0, dtr1 := bank, we := true,
+                        bank := { u.bank with rw := writeAll ((locs.map (·.1)).zip raw) u.bank.rw } }) := by
+  have hdev := hl.1
+  have haddr := hl.2
+  generalize hp : (locs.map (·.1)).zip raw = pairs at *
+  unfold writeRaw
+  rw [resolve_short]
+  simp only [hchk, hp, Bool.false_eq_true, if_false, run_send]
+  have hu1 : ((u.step (.dtr1 dev bank)).2.step (.enableWriteMemory dev a)).2 =
+      { u with dtr1 := bank, we := true, clock := u.clock + 2 } := by
+    simp [MemUnit.step, MemUnit.exec, hdev, haddr]
+  rw [hu1, run_bind]
+  obtain ⟨c, hrun⟩ := (writeLoop_run dev pairs { u with dtr1 := bank, we := true, clock := u.clock + 2 } none
+    hdev hadv rfl hb.symm hlocs hnl (by intro x hx; cases hx)).1 hcw
+  rw [hrun]
+  simp only [run_send]
+  cases pairs with
+  | nil => exact absurd rfl hne
+  | cons p ps =>
+    refine ⟨c + 1, ?_⟩
+    simp [MemUnit.step, MemUnit.exec, hdev, haddr, finalD_cons p ps none u.dtr0, finalDtr0]
+
+
+
+
+/-- the bank while it is unlocked by `write_raw` -/
+def Bank.unlocked (b : Bank) : Bank := { b with lockByte := 0x55, snap := none }
+
+/-- `write_raw` with unlocking (a value with NVM-RW-L locations, or force_unlock) on a
+lockable bank: unlock, write, verify, lock again -/
+theorem writeRaw_ok_unlock (u : MemUnit) (dev : Bool) (a bank : Nat) (locs : List (Nat × MemType))
+    (raw : List Nat) (allowShort forceUnlock : Bool)
+    (hl : u.Listens dev a) (hadv : u.advance = true) (hb : u.bank.number = bank)
+    (hlock : u.bank.hasLock = true) (h2 : 2 ≤ u.bank.last)
+    (hchk : writeChecks locs raw.length allowShort forceUnlock = .ok true)
+    (hlocs : ∀ p ∈ (locs.map (·.1)).zip raw, p.1 ≤ 255)
+    (hnl : ∀ p ∈ (locs.map (·.1)).zip raw, u.bank.isLockCell p.1 = false)
+    (hcw : ∀ p ∈ (locs.map (·.1)).zip raw, u.bank.unlocked.canWrite u.unlockValue p.1 = true) :
+    ∃ c, (writeRaw (if dev then .devShort a else .gearShort a) bank locs raw allowShort forceUnlock false).run
+        MemUnit.step u =
+      (.ok (), { u with clock := c, dtr0 := 3, dtr1 := bank, we := true,
+                        bank := { u.bank with rw := writeAll ((locs.map (·.1)).zip raw) u.bank.rw,
+                                              lockByte := 0xFF, snap := none } }) := by
+  have hdev := hl.1
+  have haddr := hl.2
+  generalize hp : (locs.map (·.1)).zip raw = pairs at *
+  have hcw2 : u.bank.canWrite u.unlockValue 2 = true := by
+    simp [Bank.canWrite, Bank.implemented, Bank.isLockCell, hlock, h2]
+  unfold writeRaw
+  rw [resolve_short]
+  simp only [hchk, hp, if_true, Bool.false_eq_true, if_false, run_send]
+  have hu1 : ((((u.step (.dtr1 dev bank)).2.step (.enableWriteMemory dev a)).2.step (.dtr0 dev 2)).2.step
+      (.writeMemoryLocationNoReply dev 0x55)).2 =
+      { u with dtr1 := bank, we := true, clock := u.clock + 4, dtr0 := 3, bank := u.bank.unlocked } := by
+    simp [MemUnit.step, MemUnit.exec, MemUnit.writeCell, MemUnit.incDtr0, Bank.store, Bank.isLockCell,
+      Bank.unlocked, hdev, haddr, hb, hadv, hcw2, hlock]
+  rw [hu1, run_bind]
+  obtain ⟨c, hrun⟩ := (writeLoop_run dev pairs
+    { u with dtr1 := bank, we := true, clock := u.clock + 4, dtr0 := 3, bank := u.bank.unlocked } (some 3)
+    hdev hadv rfl hb.symm hlocs hnl (by intro x hx; cases hx; rfl)).1 hcw
+  rw [hrun]
+  refine ⟨c + 3, ?_⟩
+  have hcw2' : ({ u.bank.unlocked with rw := writeAll pairs u.bank.unlocked.rw } : Bank).canWrite u.unlockValue 2 = true := by
+    simp [Bank.canWrite, Bank.implemented, Bank.isLockCell, Bank.unlocked, hlock, h2]
+  simp [MemUnit.step, MemUnit.exec, MemUnit.writeCell, MemUnit.incDtr0, Bank.store, Bank.isLockCell,
+    Bank.unlocked, hdev, haddr, hb, hadv, hlock, finalD_some, hcw2'] 
+  simp [Bank.canWrite, Bank.implemented, Bank.isLockCell, Bank.unlocked, hlock, h2]
+
+/-- a target cell that cannot be written (beyond the last location, unimplemented,
+read-only in the unit, or locked) makes the write fail loudly -/
+theorem writeRaw_not_writable (u : MemUnit) (dev : Bool) (a bank : Nat) (locs : List (Nat × MemType))
+    (raw : List Nat) (allowShort : Bool)
+    (hl : u.Listens dev a) (hadv : u.advance = true) (hb : u.bank.number = bank)
+    (hchk : writeChecks locs raw.length allowShort false = .ok false)
+    (hlocs : ∀ p ∈ (locs.map (·.1)).zip raw, p.1 ≤ 255)
+    (hnl : ∀ p ∈ (locs.map (·.1)).zip raw, u.bank.isLockCell p.1 = false)
+    (hcw : ¬ ∀ p ∈ (locs.map (·.1)).zip raw, u.bank.canWrite u.unlockValue p.1 = true) :
+    ((writeRaw (if dev then .devShort a else .gearShort a) bank locs raw allowShort false false).run
+        MemUnit.step u).1 = .error .MemoryLocationNotWriteable := by
+  have hdev := hl.1
+  have haddr := hl.2
+  generalize hp : (locs.map (·.1)).zip raw = pairs at *
+  unfold writeRaw
+  rw [resolve_short]
+  simp only [hchk, hp, Bool.false_eq_true, if_false, run_send]
+  have hu1 : ((u.step (.dtr1 dev bank)).2.step (.enableWriteMemory dev a)).2 =
+      { u with dtr1 := bank, we := true, clock := u.clock + 2 } := by
+    simp [MemUnit.step, MemUnit.exec, hdev, haddr]
+  rw [hu1, run_bind]
+  have := (writeLoop_run dev pairs { u with dtr1 := bank, we := true, clock := u.clock + 2 } none
+    hdev hadv rfl hb.symm hlocs hnl (by intro x hx; cases hx)).2 hcw
+  revert this
+  generalize (writeLoop dev false pairs none).run MemUnit.step
+    { u with dtr1 := bank, we := true, clock := u.clock + 2 } = r
+  intro h
+  obtain ⟨r1, r2⟩ := r
+  simp only at h
+  subst h
+  rfl
+
+/-- refused before anything is sent -/
+theorem writeRaw_refused (arg : AddrArg) (bank : Nat) (locs : List (Nat × MemType)) (raw : List Nat)
+    (s f i : Bool) (e : PyErr) (dev : Bool) (a : Nat) (hres : resolveAddr arg = .ok (dev, a))
+    (hchk : writeChecks locs raw.length s f = .error e)
+    (tr : List (Cmd × Resp)) (out : PyRes Unit) (h : Out (writeRaw arg bank locs raw s f i) tr out) :
+    tr = [] ∧ out = .error e := by
+  unfold writeRaw at h
+  rw [hres] at h
+  simp only [hchk] at h
+  simpa using h
+
+theorem writeChecks_readonly (locs : List (Nat × MemType)) (n : Nat) (s f : Bool)
+    (hlen : if s then n ≤ locs.length else n = locs.length)
+    (hro : ∃ l ∈ locs, l.2.writeable = false) :
+    writeChecks locs n s f = .error .MemoryValueNotWriteable := by
+  unfold writeChecks
+  have h1 : ¬ (if s = true then n > locs.length else n ≠ locs.length) := by
+    cases s <;> simp at hlen ⊢ <;> omega
+  obtain ⟨l, hl, hw⟩ := hro
+  have h2 : locs.any (fun l => !l.2.writeable) = true := by
+    simp only [List.any_eq_true]; exact ⟨l, hl, by simp [hw]⟩
+  simp [h1, h2]
+
+theorem writeChecks_length (locs : List (Nat × MemType)) (n : Nat) (s f : Bool)
+    (hlen : if s then n > locs.length else n ≠ locs.length) :
+    writeChecks locs n s f = .error .ValueError := by
+  unfold writeChecks
+  simp [hlen]
+
+
+
+
+theorem out_bind {α β} (p : Prog α) (f : α → Prog β) (tr : List (Cmd × Resp)) (out : PyRes β) :
+    Out (p.bind f) tr out →
+      (∃ tr1 tr2 x, tr = tr1 ++ tr2 ∧ Out p tr1 (.ok x) ∧ Out (f x) tr2 out) ∨
+      (∃ e, Out p tr (.error e) ∧ out = .error e) := by
+  induction p generalizing tr with
+  | done x => intro h; left; exact ⟨[], tr, x, by simp, by simp, h⟩
+  | fail e => intro h; right; simp [Prog.bind] at h; exact ⟨e, by simp [h.1], h.2⟩
+  | send c k ih =>
+    intro h
+    simp only [Prog.bind, out_send] at h
+    obtain ⟨r, tr', rfl, h⟩ := h
+    rcases ih r tr' h with ⟨tr1, tr2, x, rfl, h1, h2⟩ | ⟨e, h1, h2⟩
+    · left; exact ⟨(c, r) :: tr1, tr2, x, by simp, by simp only [out_send]; exact ⟨r, tr1, rfl, h1⟩, h2⟩
+    · right; exact ⟨e, by simp only [out_send]; exact ⟨r, tr', rfl, h1⟩, h2⟩
+
+theorem writeChecks_error (locs : List (Nat × MemType)) (n : Nat) (s f : Bool) (e : PyErr)
+    (h : writeChecks locs n s f = .error e) : e = .ValueError ∨ e = .MemoryValueNotWriteable := by
+  unfold writeChecks at h
+  by_cases h1 : (if s = true then n > locs.length else n ≠ locs.length)
+  · rw [if_pos h1] at h; cases h; left; rfl
+  · rw [if_neg h1] at h
+    by_cases h2 : (locs.any fun l => !l.2.writeable) = true
+    · rw [if_pos h2] at h; cases h; right; rfl
+    · rw [if_neg h2] at h; cases h
+
+/-- every WRITE MEMORY LOCATION in the exchange was echoed with its own value -/
+def EchoOK (tr : List (Cmd × Resp)) : Prop :=
+  ∀ cr ∈ tr, ∀ d v, cr.1 = Cmd.writeMemoryLocation d v → cr.2 = Resp.byte v
+
+theorem echoOK_nil : EchoOK [] := by intro cr h; cases h
+
+theorem echoOK_cons (c : Cmd) (r : Resp) (tr : List (Cmd × Resp)) :
+    EchoOK ((c, r) :: tr) ↔ (∀ d v, c = Cmd.writeMemoryLocation d v → r = Resp.byte v) ∧ EchoOK tr := by
+  simp [EchoOK]
+
+theorem echoOK_append (t1 t2 : List (Cmd × Resp)) : EchoOK (t1 ++ t2) ↔ EchoOK t1 ∧ EchoOK t2 := by
+  simp only [EchoOK, List.mem_append]
+  constructor
+  · intro h; exact ⟨fun cr hc => h cr (Or.inl hc), fun cr hc => h cr (Or.inr hc)⟩
+  · rintro ⟨h1, h2⟩ cr (hc | hc)
+    · exact h1 cr hc
+    · exact h2 cr hc
+
+/-- the write loop against any responder (feedback checked) -/
+theorem writeLoop_faults (dev : Bool) :
+    ∀ (pairs : List (Nat × Nat)) (d : Option Nat) (tr : List (Cmd × Resp)) (out : PyRes (Option Nat)),
+      Out (writeLoop dev false pairs d) tr out →
+        (∃ d', out = .ok d' ∧ EchoOK tr) ∨
+        ((out = .error .MemoryLocationNotWriteable ∨ out = .error .ResponseError) ∧ ¬ EchoOK tr) := by
+  intro pairs
+  induction pairs with
+  | nil => intro d tr out h; simp [writeLoop] at h; left; exact ⟨d, h.2, h.1 ▸ echoOK_nil⟩
+  | cons p ps ih =>
+    intro d tr out h
+    obtain ⟨l, v⟩ := p
+    have body : ∀ tr, Out (Prog.send (.writeMemoryLocation dev v) fun r =>
+              match r with
+              | .none => Prog.fail .MemoryLocationNotWriteable
+              | .err => Prog.fail .ResponseError
+              | .byte b => if b ≠ v then Prog.fail .ResponseError
+                           else writeLoop dev false ps (some (min (l + 1) 255))) tr out →
+        (∃ d', out = .ok d' ∧ EchoOK tr) ∨
+        ((out = .error .MemoryLocationNotWriteable ∨ out = .error .ResponseError) ∧ ¬ EchoOK tr) := by
+      intro tr h
+      rw [out_send] at h
+      obtain ⟨r, tr', rfl, h⟩ := h
+      cases r with
+      | none =>
+        simp at h; right
+        exact ⟨Or.inl h.2, fun he => by have := ((echoOK_cons _ _ _).mp he).1 dev v rfl; cases this⟩
+      | err =>
+        simp at h; right
+        exact ⟨Or.inr h.2, fun he => by have := ((echoOK_cons _ _ _).mp he).1 dev v rfl; cases this⟩
+      | byte b =>
+        simp only at h
+        by_cases hbv : b = v
+        · subst hbv
+          simp only [ne_eq, not_true_eq_false, if_false] at h
+          rcases ih _ _ _ h with ⟨d', h1, h2⟩ | ⟨h1, h2⟩
+          · left; exact ⟨d', h1, (echoOK_cons _ _ _).mpr ⟨(by intro d v' hc; cases hc; rfl), h2⟩⟩
+          · right; exact ⟨h1, fun he => h2 ((echoOK_cons _ _ _).mp he).2⟩
+        · simp only [ne_eq, hbv, not_false_eq_true, if_true] at h
+          simp at h; right
+          exact ⟨Or.inr h.2, fun he => by
+            have := ((echoOK_cons _ _ _).mp he).1 dev v rfl
+            exact hbv (by cases this; rfl)⟩
+    unfold writeLoop at h
+    simp only [Bool.false_eq_true, if_false] at h
+    by_cases hdl : d = some l
+    · simp only [hdl, if_true] at h; exact body tr h
+    · simp only [hdl, if_false] at h
+      rw [out_send] at h
+      obtain ⟨r, tr', rfl, h⟩ := h
+      rcases body tr' h with ⟨d', h1, h2⟩ | ⟨h1, h2⟩
+      · left; exact ⟨d', h1, (echoOK_cons _ _ _).mpr ⟨(by intro d v' hc; cases hc), h2⟩⟩
+      · right; exact ⟨h1, fun he => h2 ((echoOK_cons _ _ _).mp he).2⟩
+
+/-- `write_raw` against any responder, feedback checked: a normal return means
+every write was echoed with its own value and DTR0 was read back as a clean
+byte equal to the tracked value; every other outcome is a documented exception -/
+theorem writeRaw_faults (arg : AddrArg) (bank : Nat) (locs : List (Nat × MemType)) (raw : List Nat)
+    (s f : Bool) (tr : List (Cmd × Resp)) (out : PyRes Unit)
+    (h : Out (writeRaw arg bank locs raw s f false) tr out) :
+    (out = .ok () ∧ (∀ cr ∈ tr, ∀ d v, cr.1 = Cmd.writeMemoryLocation d v → cr.2 = Resp.byte v) ∧
+      ∃ dev a b, (Cmd.queryContentDTR0 dev a, Resp.byte b) ∈ tr) ∨
+    (∃ e, out = .error e ∧ (e = .TypeError ∨ e = .ValueError ∨ e = .MemoryValueNotWriteable ∨
+      e = .MemoryLocationNotWriteable ∨ e = .ResponseError ∨ e = .MemoryWriteFailure)) := by
+  unfold writeRaw at h
+  cases hres : resolveAddr arg with
+  | error e =>
+    rw [hres] at h; simp at h; right
+    refine ⟨e, h.2, ?_⟩
+    cases arg <;> simp [resolveAddr] at hres
+    · split at hres <;> simp at hres; subst hres; simp
+    · subst hres; simp
+  | ok da =>
+    obtain ⟨dev, a⟩ := da
+    rw [hres] at h
+    simp only at h
+    cases hchk : writeChecks locs raw.length s f with
+    | error e =>
+      rw [hchk] at h; simp at h; right
+      refine ⟨e, h.2, ?_⟩
+      rcases writeChecks_error _ _ _ _ _ hchk with rfl | rfl <;> simp
+    | ok unlock =>
+      rw [hchk] at h
+      simp only [Bool.false_eq_true, if_false, out_send] at h
+      obtain ⟨r1, t1, rfl, r2, t2, rfl, h⟩ := h
+      -- the part after the optional unlock
+      have main : ∀ (d : Option Nat) (tr : List (Cmd × Resp)),
+          Out ((writeLoop dev false ((locs.map (·.1)).zip raw) d).bind fun d' =>
+            Prog.send (.queryContentDTR0 dev a) fun r =>
+              match r with
+              | .none => Prog.fail .ResponseError
+              | .err => Prog.fail .ResponseError
+              | .byte b => if some b ≠ d' then Prog.fail .MemoryWriteFailure else
+                  (if unlock then
+                    Prog.send (.dtr0 dev 2) fun _ => Prog.send (.writeMemoryLocationNoReply dev 0xFF) fun _ => Prog.done ()
+                  else Prog.done ())) tr out →
+          (out = .ok () ∧ EchoOK tr ∧ ∃ dev a b, (Cmd.queryContentDTR0 dev a, Resp.byte b) ∈ tr) ∨
+          (∃ e, out = .error e ∧ (e = .TypeError ∨ e = .ValueError ∨ e = .MemoryValueNotWriteable ∨
+            e = .MemoryLocationNotWriteable ∨ e = .ResponseError ∨ e = .MemoryWriteFailure)) := by
+        intro d tr h
+        rcases out_bind _ _ _ _ h with ⟨tr1, tr2, d', rfl, h1, h2⟩ | ⟨e, h1, h2⟩
+        · rcases writeLoop_faults dev _ _ _ _ h1 with ⟨_, _, hecho⟩ | ⟨hbad, _⟩
+          · rw [out_send] at h2
+            obtain ⟨r, tr3, rfl, h2⟩ := h2
+            cases r with
+            | none => simp at h2; right; exact ⟨_, h2.2, by simp⟩
+            | err => simp at h2; right; exact ⟨_, h2.2, by simp⟩
+            | byte b =>
+              simp only at h2
+              by_cases hb : some b = d'
+              · simp only [hb, ne_eq, not_true_eq_false, if_false] at h2
+                cases unlock
+                · simp at h2
+                  left
+                  refine ⟨h2.2, ?_, dev, a, b, by simp⟩
+                  rw [echoOK_append]; refine ⟨hecho, ?_⟩
+                  rw [h2.1]; rw [echoOK_cons]; exact ⟨(by intro d v hc; cases hc), echoOK_nil⟩
+                · simp at h2
+                  obtain ⟨r4, t4, rfl, r5, t5, rfl, rfl, rfl⟩ := h2
+                  left
+                  refine ⟨rfl, ?_, dev, a, b, by simp⟩
+                  rw [echoOK_append]; refine ⟨hecho, ?_⟩
+                  simp [EchoOK]
+              · simp only [ne_eq, hb, not_false_eq_true, if_true] at h2
+                simp at h2; right; exact ⟨_, h2.2, by simp⟩
+          · rcases hbad with hbad | hbad <;> cases hbad
+        · rcases writeLoop_faults dev _ _ _ _ h1 with ⟨_, hok, _⟩ | ⟨hbad, _⟩
+          · cases hok
+          · right
+            rcases hbad with hbad | hbad
+            · cases hbad; exact ⟨_, h2, by simp⟩
+            · cases hbad; exact ⟨_, h2, by simp⟩
+      cases unlock
+      · simp only [Bool.false_eq_true, if_false] at h main
+        rcases main none _ h with ⟨h1, h2, dv, av, b, h3⟩ | h'
+        · left
+          refine ⟨h1, ?_, dv, av, b, by simp [h3]⟩
+          have : EchoOK ((Cmd.dtr1 dev bank, r1) :: (Cmd.enableWriteMemory dev a, r2) :: t2) := by
+            rw [echoOK_cons, echoOK_cons]
+            exact ⟨(by intro d v hc; cases hc), (by intro d v hc; cases hc), h2⟩
+          exact this
+        · right; exact h'
+      · simp only [if_true, out_send] at h main
+        obtain ⟨r3, t3, rfl, r4, t4, rfl, h⟩ := h
+        rcases main (some 3) _ h with ⟨h1, h2, dv, av, b, h3⟩ | h'
+        · left
+          refine ⟨h1, ?_, dv, av, b, by simp [h3]⟩
+          have : EchoOK ((Cmd.dtr1 dev bank, r1) :: (Cmd.enableWriteMemory dev a, r2) ::
+              (Cmd.dtr0 dev 2, r3) :: (Cmd.writeMemoryLocationNoReply dev 0x55, r4) :: t4) := by
+            rw [echoOK_cons, echoOK_cons, echoOK_cons, echoOK_cons]
+            exact ⟨(by intro d v hc; cases hc), (by intro d v hc; cases hc), (by intro d v hc; cases hc),
+              (by intro d v hc; cases hc), h2⟩
+          exact this
+        · right; exact h'
+
+
 end DaliVerif.DevMem
